@@ -29,11 +29,21 @@ def goenv():
     return e
 
 
-def sh(cmd, cwd=None, env=None, timeout=3600, stdin=None):
+def sh(cmd, cwd=None, env=None, timeout=3600, stdin=None, cpus=None):
+    """cpus=k restricts the child to k CPUs (sched_setaffinity), which is what runtime.NumCPU reports."""
     t0 = time.time()
+    pre = None
+    if cpus:
+        try:
+            avail = sorted(os.sched_getaffinity(0))
+            if len(avail) >= cpus:
+                chosen = set(avail[:cpus])
+                pre = lambda: os.sched_setaffinity(0, chosen)
+        except (AttributeError, OSError):
+            pre = None
     try:
         p = subprocess.run(cmd, cwd=cwd, env=env, stdout=subprocess.PIPE, stderr=subprocess.STDOUT,
-                           timeout=timeout, stdin=stdin)
+                           timeout=timeout, stdin=stdin, preexec_fn=pre)
         out = p.stdout.decode("utf-8", "replace")
         return p.returncode, out, time.time() - t0
     except subprocess.TimeoutExpired as ex:
@@ -80,7 +90,8 @@ def regen():
 def envprobe(wdir):
     """The regenerated data (tables, coefficients, matrices) must not depend on the process
     environment the library is first used in: re-run the dumper in fresh processes under other
-    GOMAXPROCS values and compare with lean/Prism/Gen byte for byte.  Returns a list of problems."""
+    GOMAXPROCS values, on other numbers of CPUs (affinity: what runtime.NumCPU reports) and with another
+    part of the library used first, and compare with lean/Prism/Gen byte for byte.  Returns a list of problems."""
     import filecmp, shutil
     problems = []
     gen = os.path.join(LEAN, "Prism", "Gen")
@@ -92,7 +103,7 @@ def envprobe(wdir):
         e["GOMAXPROCS"] = n
         if first:
             e["PV_FIRSTUSE"] = first
-        penv = {"GOMAXPROCS": n}
+        penv = {"GOMAXPROCS": n, "PV_CPUS": n}
         if first:
             penv["PV_FIRSTUSE"] = first
         if n != "1":
@@ -100,7 +111,7 @@ def envprobe(wdir):
                 if nm not in ("GOMAXPROCS",):
                     e[nm] = "1"
                     penv[nm] = "1"
-        rc, out, dt = sh([PV, "dump", d], env=e, timeout=600)
+        rc, out, dt = sh([PV, "dump", d], env=e, timeout=600, cpus=int(n))
         diff = []
         if rc == 0:
             for f in sorted(os.listdir(gen)):
@@ -109,10 +120,10 @@ def envprobe(wdir):
                         diff.append(f)
         shutil.rmtree(d, ignore_errors=True)
         if rc != 0 or diff:
-            problems.append({"kind": "env", "env": penv,
+            problems.append({"kind": "env", "env": penv, "probe": True,
                              "what": ("the code's tables/constants depend on the process environment / order of first use: with %s the dumper %s" %
                                       (" ".join("%s=%s" % kv for kv in sorted(penv.items())), ("regenerates different data in " + ", ".join(diff[:6])) if rc == 0 else "fails")),
-                             "failed_modules": ["Prism.Gen." + f[:-5] + " (regenerated under GOMAXPROCS=%s: the kernel-checked theorems are about the default-environment data)" % n for f in diff[:6]],
+                             "failed_modules": ["Prism.Gen." + f[:-5] + " (regenerated under GOMAXPROCS=%s on %s CPUs: the kernel-checked theorems are about the default-environment data)" % (n, n) for f in diff[:6]],
                              "detail": out[-1500:]})
             break
     return problems
@@ -404,6 +415,36 @@ def envrun(pid, tier, seed, wdir, timeout):
     return problems, directs, info
 
 
+def corr_directs_under(pid, tier, seed, wdir, penv, timeout):
+    """After an environment probe found different data: run the property's own oracles (the direct checks
+    inside the correspondence harness) on the real code in that environment — PV_CPUS is the number of
+    CPUs the process is confined to — and return the concrete failing inputs they find."""
+    d = os.path.join(wdir, "envprobe_corr")
+    os.makedirs(d, exist_ok=True)
+    env = goenv()
+    env["GOMEMLIMIT"] = env.get("GOMEMLIMIT", "8GiB")
+    env.update(penv)
+    cpus = int(penv.get("PV_CPUS", 0) or 0) or None
+    rc, out, dt = sh([PV, "corr", pid, tier, str(seed), d], env=env, timeout=timeout, cpus=cpus)
+    directs = []
+    tag = ",".join("%s=%s" % kv for kv in sorted(penv.items()))
+    try:
+        st = json.load(open(os.path.join(d, "stats.json")))
+        for dd in (st.get("extra", {}) or {}).get("direct", []) or []:
+            dd = dict(dd)
+            dd["process_env"] = dict(penv, note="PV_CPUS = number of CPUs the process may run on (sched_setaffinity / taskset)")
+            dd["key"] = str(dd.get("key")) + "/env:" + tag
+            directs.append(dd)
+    except Exception:
+        pass
+    for fn in ("ops.txt", "impl.txt", "stats.json"):
+        try:
+            os.remove(os.path.join(d, fn))
+        except OSError:
+            pass
+    return directs
+
+
 def racerun(tier, wdir, pid="C11"):
     """C11 search: fresh -race processes whose goroutines meet at first use. Returns list of findings."""
     findings = []
@@ -484,7 +525,7 @@ def search(pid, kind, payload, wdir, env_extra=None):
     json.dump({"kind": kind, "payload": payload}, open(req, "w"))
     env = goenv()
     env.update(env_extra or (payload.get("env") if isinstance(payload, dict) else None) or {})
-    rc, out, dt = sh([PV, "search", pid, req], env=env, timeout=900)
+    rc, out, dt = sh([PV, "search", pid, req], env=env, timeout=900, cpus=(int(env.get("PV_CPUS", 0) or 0) or None))
     res = {"found": False, "detail": out[-4000:], "rc": rc}
     for line in out.splitlines():
         if line.startswith("WITNESS "):
@@ -597,6 +638,9 @@ def run_check(pid, tier, seed):
         steps["racerun"] = rinfo
         extra_direct = fnd
     extra_direct = list(extra_direct) + extra_direct_env
+    for pr in problems:
+        if pr.get("probe") and steps.get("build_harness"):
+            extra_direct += corr_directs_under(pid, tier, seed, wdir, pr["env"], P.get("corr_timeout", 3000))[:8]
 
     # ---- 5: search for a concrete failing input ------------------------------------------------
     known = [k for k in load_known() if k.get("property") == pid and k.get("status") == "open"]
